@@ -18,6 +18,11 @@ def wl_bloom(ctx, rng, case):
     import probables as P
 
     est, rate, m, k = gen.bloom_geometry(rng)
+    if case.index % 60 == 11:
+        from .. import refimpl as _r
+        est, rate = rng.choice([(20000, 0.01), (60000, 0.05), (9000, 1e-5)])  # several pages of bits
+        m, k = _r.bloom_sizing_simple(est, rate)
+        ctx.count("large_bloom_pairs")
     keys = gen.universe(rng, rng.randint(2, 20))
     hname, hf = gen.pick_hash(rng, keys)
     A = [rng.choice(keys) for _ in range(rng.randint(0, 12))]
